@@ -78,3 +78,18 @@ func init() {
 		return int32(1)
 	}
 }
+
+func init() {
+	// message ids: crypto/rand + math/big (assembly); the id is opaque to every obligation
+	externals["(*github.com/thushan/olla/internal/adapter/translator/anthropic.Translator).generateMessageID"] = func(fr *frame, a []value) value {
+		E.Stubs["anthropic.Translator.generateMessageID -> constant id"]++
+		return "msg_01verif"
+	}
+	externals["crypto/rand.Read"] = func(fr *frame, a []value) value {
+		b := a[0].([]value)
+		for i := range b {
+			b[i] = byte(i*37 + 11)
+		}
+		return tuple{len(b), iface{}}
+	}
+}
